@@ -172,6 +172,15 @@ class Program:
         for parent in ast.walk(m.tree):
             for child in ast.iter_child_nodes(parent):
                 self._parents[id(child)] = parent
+        # textual order of the (possibly normalised) tree: an inlined statement
+        # keeps the line number of the helper it came from, so "earlier in the
+        # function" is decided on this pre-order index, never on lineno
+        stack, k = [m.tree], 0
+        while stack:
+            n = stack.pop()
+            n._ord = k
+            k += 1
+            stack.extend(reversed(list(ast.iter_child_nodes(n))))
         for node in m.tree.body:
             if isinstance(node, (ast.FunctionDef, ast.AsyncFunctionDef)):
                 fi = FunctionInfo(m, None, node, node.name)
